@@ -163,6 +163,10 @@ def forward(front, multipart, idx, with_alg, full_idx, with_type, with_mpu, supp
                 algs = [g.replace('Checksum', '') for g in full_given]   # several at once: any of them
                 if kw.get('ChecksumType') != 'FULL_OBJECT' or kw.get('ChecksumAlgorithm') not in algs:
                     return 'c15: full-object checksum without matching ChecksumType/ChecksumAlgorithm on create'
+            if full_given and multipart and op == 'complete_multipart_upload' and 'ChecksumType' in shape \
+                    and kw.get('ChecksumType') != 'FULL_OBJECT':
+                # create and complete must agree on the checksum type the library derived from the user's checksum
+                return 'c15: full-object checksum without the matching ChecksumType on complete'
             if op in ('put_object', 'create_multipart_upload', 'upload_part'):
                 has = 'ChecksumAlgorithm' in kw
                 want_default = supported and not full_given and 'ChecksumAlgorithm' not in given
